@@ -46,7 +46,8 @@ CONSTANTS
   MaxTime = {maxtime}
   DevNoClosedCheck = {dev1}
   DevTaskEndsOnError = {dev2}
-INVARIANTS TypeOK PolicyNever NoSpuriousMerge TasksAlive TriggeredMergeDeadline IntervalSync ClosedRejects NoWorkStartsAfterClose PromptExit
+  DevDropDoesNotWait = {dev3}
+INVARIANTS TypeOK PolicyNever NoSpuriousMerge TasksAlive TriggeredMergeDeadline IntervalSync ClosedRejects NoWorkStartsAfterClose PromptExit NoWriterAfterDropReturned
 PROPERTY BgExitsWithoutTimer
 CHECK_DEADLOCK FALSE
 """
@@ -76,19 +77,19 @@ def model_check(v, prop, tier):
         insts = [("always", 3, 1, 2), ("always", 2, 0, 3), ("never", 3, 1, 2), ("always", 4, 2, 0), ("window", 2, 0, 0), ("window", 2, 1, 2)]
         for pol, i, j, s in insts:
             cfg = write_cfg(f"life_{os.getpid()}_{pol}{i}{j}{s}.cfg", LIFE_CFG.format(policy=pol, i=i, j=j, s=s, maxtime=10 if q else 14,
-                                                                                     dev1="FALSE", dev2="FALSE"))
+                                                                                     dev1="FALSE", dev2="FALSE", dev3="FALSE"))
             r = tlc("Lifecycle.tla", cfg, workers=4, timeout=1200, metatag=f"life-{os.getpid()}-{pol}{i}{j}{s}")
             v.add_tlc(f"Lifecycle.tla policy={pol} I={i} J={j} S={s}", r)
             if not r.ok:
                 raise ToolError(f"Lifecycle.tla violates {r.violated or r.eval_error}\n{r.out[-2500:]}")
         # the invariants are not vacuous: the model with a deviation switched on violates the one that names it
-        for pol, d1, d2, inv in (("always", "TRUE", "FALSE", "NoWorkStartsAfterClose"), ("window", "TRUE", "FALSE", "NoWorkStartsAfterClose"),
-                                 ("always", "FALSE", "TRUE", "TasksAlive")):
-            cfg = write_cfg(f"life_{os.getpid()}_dev{pol}{d1}{d2}.cfg", LIFE_CFG.format(policy=pol, i=2, j=0, s=0, maxtime=8, dev1=d1, dev2=d2))
-            r = tlc("Lifecycle.tla", cfg, workers=1, timeout=600, metatag=f"life-{os.getpid()}-dev{pol}{d1}{d2}")
+        for pol, d1, d2, d3, inv in (("always", "TRUE", "FALSE", "FALSE", "NoWorkStartsAfterClose"), ("window", "TRUE", "FALSE", "FALSE", "NoWorkStartsAfterClose"),
+                                     ("always", "FALSE", "TRUE", "FALSE", "TasksAlive"), ("always", "FALSE", "FALSE", "TRUE", "NoWriterAfterDropReturned")):
+            cfg = write_cfg(f"life_{os.getpid()}_dev{pol}{d1}{d2}{d3}.cfg", LIFE_CFG.format(policy=pol, i=2, j=0, s=0, maxtime=8, dev1=d1, dev2=d2, dev3=d3))
+            r = tlc("Lifecycle.tla", cfg, workers=1, timeout=600, metatag=f"life-{os.getpid()}-dev{pol}{d1}{d2}{d3}")
             if r.violated != inv:
-                raise ToolError(f"Lifecycle.tla with deviation ({pol}, {d1}, {d2}) should violate {inv}, got {r.violated or 'no violation'}")
-            v.cov.setdefault("deviations_rejected_by_the_model", []).append(f"policy={pol} DevNoClosedCheck={d1} DevTaskEndsOnError={d2} -> {inv}")
+                raise ToolError(f"Lifecycle.tla with deviation ({pol}, {d1}, {d2}, {d3}) should violate {inv}, got {r.violated or 'no violation'}")
+            v.cov.setdefault("deviations_rejected_by_the_model", []).append(f"policy={pol} DevNoClosedCheck={d1} DevTaskEndsOnError={d2} DevDropDoesNotWait={d3} -> {inv}")
 
 
 GENCONC_CFG = """SPECIFICATION GSpec
@@ -206,6 +207,9 @@ def inputs_for(prop, tier):
             items.append({"kind": "idle", "wait_ms": 250, "config": {"merge": {"policy": pol, "check_interval_ms": 40}, "sync": {"interval_ms": 25}}})
         items.append({"kind": "cycles", "n": 6, "hold_ms": 120, "config": {"merge": {"policy": outside, "check_interval_ms": 25}}})
         items.append({"kind": "cycles", "n": 6, "hold_ms": 120, "config": {"merge": {"policy": "always", "check_interval_ms": 25, "triggers": trig}, "sync": {"interval_ms": 20}}})
+        # a background merge is in flight at the drop, the directory is opened again as soon as the drop has returned
+        for nth, mf in ((2, 120), (4, 60), (1, 1000000)):
+            items.append({"kind": "mid-merge-reopen", "nth": nth, "max_file": mf})
         items.append({"kind": "quick-cycles", "n": 25 if q else 100, "config": far})
         items.append({"kind": "quick-cycles", "n": 25 if q else 100, "config": {"sync": {"interval_ms": 3600000}, "merge": {"policy": "never"}}})
         items.append({"kind": "cycles", "n": 50 if q else 200, "config": {"merge": {"policy": "always", "check_interval_ms": 50}, "sync": {"interval_ms": 20}}})
@@ -247,6 +251,7 @@ CONSTANTS
   MaxTime = {maxtime}
   DevNoClosedCheck = FALSE
   DevTaskEndsOnError = FALSE
+  DevDropDoesNotWait = FALSE
 INVARIANTS TypeOK NoWorkStartsAfterClose TasksAlive
 POSTCONDITION Accepted
 CHECK_DEADLOCK FALSE
